@@ -39,6 +39,9 @@ ANC_SETS = ("ancilla_lst", "free_ancilla_lst", "marked_ancillas")
 
 
 def run(ctx: Ctx):
+    from .. import memo as _memo
+
+    ctx.section(_memo.check_memo_keys, ctx, ('compiler.', 'qcircuit.qcircuitenhanced', 'qcircuit.qcircuit.', 'qlassfun.QlassF.compile', 'qlassfun.QlassF.circuit', 'qcircuit.qcircuitwrapper.QCircuitWrapper.circuit'))
     check_uncompute(ctx)
     check_uncompute_all(ctx)
     check_keep_flow(ctx)
